@@ -827,6 +827,9 @@ func (b *modelBuilder) call1(x *ssa.Call, s *mstate) bool {
 		s.path.Effects = append(s.path.Effects, &Effect{Kind: "DIAL", Name: name, Args: b.resAll(s, x.Call.Args), Instr: x, Val: x})
 		return true
 	}
+	if _, isBuiltin := x.Call.Value.(*ssa.Builtin); isBuiltin {
+		return true // len, cap, append, copy, ...: no protocol effect
+	}
 	// call through a Gateway callback field
 	if x.Call.StaticCallee() == nil && !x.Call.IsInvoke() {
 		if cb, ok := b.cbFieldOf(x.Call.Value); ok {
